@@ -213,6 +213,36 @@ class ModelPool:
             raise RuntimeError("ModelPool used outside an exploration")
         return sch.run_map(func, chunks, self.processes)
 
+    # --- the rest of the ThreadPool surface a refactoring might legitimately use ----------------------
+    # Asynchronous variants are modelled as deferred: the tasks run (under the scheduler) when the caller
+    # waits for them, which is one legal behaviour of the real pool (the caller does nothing in between).
+    def map_async(self, func, iterable, chunksize=None, callback=None, error_callback=None):
+        return ModelAsyncResult(lambda: self.map(func, iterable, chunksize), callback, error_callback)
+
+    def starmap(self, func, iterable, chunksize=None):
+        return self.map(lambda args: func(*args), iterable, chunksize)
+
+    def starmap_async(self, func, iterable, chunksize=None, callback=None, error_callback=None):
+        return ModelAsyncResult(lambda: self.starmap(func, iterable, chunksize), callback, error_callback)
+
+    def imap(self, func, iterable, chunksize=1):
+        # ordered; a failing task surfaces when its position is reached
+        tasks = list(iterable)
+        outcomes = self.map(lambda t: _capture(func, t), tasks, chunksize)
+        for ok, val in outcomes:
+            if not ok:
+                raise val
+            yield val
+
+    def imap_unordered(self, func, iterable, chunksize=1):
+        return self.imap(func, iterable, chunksize)
+
+    def apply(self, func, args=(), kwds=None):
+        return self.map(lambda _: func(*args, **(kwds or {})), [0])[0]
+
+    def apply_async(self, func, args=(), kwds=None, callback=None, error_callback=None):
+        return ModelAsyncResult(lambda: self.apply(func, args, kwds), callback, error_callback)
+
     def close(self):
         pass
 
@@ -227,6 +257,55 @@ class ModelPool:
 
     def __exit__(self, *a):
         self.terminate()
+
+
+def _capture(func, t):
+    try:
+        return (True, func(t))
+    except Exception as e:  # noqa
+        return (False, e)
+
+
+class ModelAsyncResult:
+    """multiprocessing.pool.AsyncResult for the model pool (deferred execution)."""
+
+    def __init__(self, thunk, callback=None, error_callback=None):
+        self._thunk = thunk
+        self._done = False
+        self._ok = None
+        self._value = None
+        self._cb, self._ecb = callback, error_callback
+
+    def _run(self):
+        if not self._done:
+            try:
+                self._value = self._thunk()
+                self._ok = True
+                if self._cb:
+                    self._cb(self._value)
+            except Exception as e:  # noqa
+                self._value = e
+                self._ok = False
+                if self._ecb:
+                    self._ecb(e)
+            self._done = True
+
+    def wait(self, timeout=None):
+        self._run()
+
+    def ready(self):
+        self._run()
+        return True
+
+    def successful(self):
+        self._run()
+        return self._ok
+
+    def get(self, timeout=None):
+        self._run()
+        if self._ok:
+            return self._value
+        raise self._value
 
 
 # ----------------------------------------------------------------------------- monitoring set-up
